@@ -16,6 +16,7 @@ func formatReplay(w *World, o *Obligation, q *Query, _ map[string]string) (strin
 	src := `package errors_test
 
 import (
+	"context"
 	stderrors "errors"
 	"fmt"
 	"strings"
@@ -24,6 +25,11 @@ import (
 	"github.com/cockroachdb/errors"
 	"github.com/cockroachdb/redact"
 )
+
+type verifHostileDetails struct{ msg, d string }
+
+func (e *verifHostileDetails) Error() string         { return e.msg }
+func (e *verifHostileDetails) SafeDetails() []string { return []string{e.d, "second " + e.d} }
 
 func verifBalanced(s string) string {
 	for ln, line := range strings.Split(s, "\n") {
@@ -93,6 +99,9 @@ func TestVerifReplay(t *testing.T) {
 			fmt.Errorf("std %s: %w", h, errors.New(h)),
 			errors.WithDetail(errors.WithHint(errors.New("m"), h), h),
 			errors.Join(errors.New(h), fmt.Errorf("%s", h)),
+			// an unknown leaf type whose safe details carry the hostile string, seen after a hop
+			errors.DecodeError(context.Background(), errors.EncodeError(context.Background(), &verifHostileDetails{"m " + h, h})),
+			errors.DecodeError(context.Background(), errors.EncodeError(context.Background(), errors.Wrap(&verifHostileDetails{"m", h}, h))),
 		}
 		for _, e := range errs {
 			for _, verb := range []string{"%v", "%s", "%+v"} {
@@ -120,5 +129,5 @@ func TestVerifReplay(t *testing.T) {
 }
 
 func init() {
-	registerReplayFirst(`^\(\*errbase\.state\)\.(finishDisplay|printEntry|formatEntries|formatSingleLineOutput|formatRecursive|collectEntry|elideShortChildren|formatSimple)#|^errbase\.(formatErrorInternal|FormatError|FormatRedactableError)#`, formatReplay)
+	registerReplayFirst(`^\(\*errbase\.state\)\.(finishDisplay|printEntry|formatEntries|formatSingleLineOutput|formatRecursive|collectEntry|elideShortChildren|formatSimple)#|#redactable\.|^errbase\.(formatErrorInternal|FormatError|FormatRedactableError)#`, formatReplay)
 }
